@@ -344,7 +344,16 @@ func (c *VirtualTable) Begin() error {
 		c.module.sc.txFixedWriteTime = true
 		c.module.sc.ResetContext()
 	}
-	return toSqlite(c.common.Begin(c.module.sc.ctx))
+	err := c.common.Begin(c.module.sc.ctx)
+	if err != nil && c.module.sc.txFixedWriteTime {
+		// no transaction was begun, so neither Commit nor Rollback will
+		// follow: the time fixed for it must not stay in force (it showed
+		// as the connection's write_time and stamped the next transaction)
+		c.module.sc.writeTime = time.Time{}
+		c.module.sc.txFixedWriteTime = false
+		c.module.sc.ResetContext()
+	}
+	return toSqlite(err)
 }
 
 func (c *VirtualTable) Commit() error {
